@@ -41,6 +41,46 @@ NEEDS = {
  "C18-m2": ("C18", "trim: exclusion values cast to the integer raster's dtype", "integer raster and an exclusion value its dtype cannot represent (0.5, 256, -1)"),
  "C19-m1": ("C19", "_ellipse_kernel memoised + annulus subtracts in place into the cached disc", "annulus_kernel followed by circle_kernel / annulus_kernel with the same outer half-sizes in one process"),
  "C19-m2": ("C19", "great_circle_distance: exact-antipode branch returns pi * EARTH_RADIUS instead of pi * radius", "non-default radius and an exactly antipodal pair"),
+
+ # ---- wave 2 (agents were told the wave-1 ideas for their property and asked for different mechanisms) ----
+ "C01-w2m1": ("C01", "focal.mean on Dask fuses all passes into one overlap of depth `passes` with a NaN boundary", "Dask, passes >= 2, excludes without NaN"),
+ "C01-w2m2": ("C01", "perlin on Dask derives block coordinates from block_id * chunksize (largest chunk)", "non-uniform chunking with a non-last chunk smaller than the largest"),
+ "C02-w2m1": ("C02", "nodata matched with np.isclose instead of !=", "a valid value within 1e-8 + 1e-5*|nodata| of nodata_values"),
+ "C02-w2m2": ("C03", "Dask stats filters unique_zones to the requested ids before the per-block strides (property C03's mechanism)", "Dask, zone_ids given, a block holding a smaller unrequested id next to a requested one"),
+ "C03-w2m1": ("C03", "Dask stats: mean combined as the mean of per-block means", "a zone split over blocks with different valid-cell counts and different block means"),
+ "C03-w2m2": ("C03", "3-D crosstab aligns values to zones via chunksize (largest chunk) instead of the chunk tuples", "irregular zones chunks with values chunked differently"),
+ "C04-w2m1": ("C04", "_sort_and_stride flattens with ravel(order='K')", "zones and values with different memory layouts (one Fortran-ordered / transposed)"),
+ "C04-w2m2": ("C04", "crosstab zone selection by np.searchsorted without a membership test", "a requested zone id that is absent and smaller than the largest zone"),
+ "C05-w2m1": ("C05", "viewshed: duplicate-looking gradient call removed, target_elev leaks into the blockers' centre gradient", "target_elev > 0 and a sight line the raised centre can cut"),
+ "C05-w2m2": ("C05", "corner-elevation bounds test uses n_cols for the row index", "more rows than columns and relief in rows >= n_cols - 1"),
+ "C06-w2m1": ("C06", "proximity bottom-up pass loses the per-line reset of the nearest-target indices", "cells taller than wide and a target directly below a cell whose nearest target is horizontally closer (allocation/direction only)"),
+ "C06-w2m2": ("C06", "max_distance clamped to the corner-to-corner distance", "GREAT_CIRCLE, unbounded max_distance, high-latitude raster wider than tall or near-global longitude span"),
+ "C07-w2m1": ("C07", "Dask proximity map_overlap boundary=0 instead of NaN", "0 among target_values, finite max_distance, coordinate origin near the raster"),
+ "C07-w2m2": ("C07", "explicit Dask task name tokenised without the closure's parameters", "two calls on the same Dask raster differing in function / targets / metric / max_distance (same halo) computed in one graph"),
+ "C08-w2m1": ("C01", "slope on Dask: float32 cast dropped before map_overlap (property C01's mechanism)", "integer-dtype Dask raster"),
+ "C08-w2m2": ("C08", "aspect treats gradients below float32 eps as flat", "non-zero gradients below 1.19e-7"),
+ "C09-w2m1": ("C09", "focal_stats computes layers in dict order but labels them in request order", ">= 2 stats requested in a non-canonical order"),
+ "C09-w2m2": ("C01", "Dask convolution builds its NaN halo in the raster's dtype (property C01's mechanism)", "integer-dtype Dask raster"),
+ "C10-w2m1": ("C10", "normalized-ratio kernel writes its result into its first argument", "Dask backend, float32 first band (same-dtype astype is a no-op), result computed"),
+ "C10-w2m2": ("C10", "a_star_search output built from the two dimension coordinates only", "input carrying scalar / non-index coordinates"),
+ "C11-w2m1": ("C11", "Dask proximity coordinate grids created with fixed graph names", "two Dask calls on rasters with different coordinates computed in one graph"),
+ "C11-w2m2": ("C11", "hotspots normalises the caller's float64 kernel in place", "the same float64 kernel object reused after a hotspots() call"),
+ "C12-w2m1": ("C12", "natural_breaks fits Jenks on the de-duplicated sample", "ties with uneven multiplicities and > k distinct values"),
+ "C12-w2m2": ("C12", "binary: np.searchsorted on the (unsorted) values list", "values list not in ascending order"),
+ "C13-w2m1": ("C10", "GCI kernel writes its result into the nir array it was handed (property C10's mechanism)", "Dask backend with a float32 nir band"),
+ "C13-w2m2": ("C13", "normalized-ratio kernel flattened with ravel(): writes go to a copy for Fortran-ordered first band", "NumPy backend, Fortran-ordered / transposed first band"),
+ "C14-w2m1": ("C14", "barrier lookup by np.searchsorted on an unsorted barrier list", "barriers list of >= 2 values not in ascending order"),
+ "C14-w2m2": ("C14", "start == goal fast path before the crossability test", "start and goal resolving to the same barrier / NaN cell, snapping off"),
+ "C15-w2m1": ("C15", "polygonize flattens raster and mask with ravel(order='K')", "Fortran-ordered or transposed-view raster"),
+ "C15-w2m2": ("C15", "nx == 1 padding uses mask[0] instead of mask[:, 0]", "Nx1 raster with a mask that is not constant down the column"),
+ "C16-w2m1": ("C16", "regions merge pass: tolerance 1e-8 + 1e-5*val without abs", "negative-valued component needing more than one provisional label"),
+ "C16-w2m2": ("C16", "regions merge pass: NaN centre -> break instead of continue", "a NaN left of where two arms of a component join"),
+ "C17-w2m1": ("C17", "cell_stats writes results into an array of the layers' result_type", "all layers integer and a non-integral (mean/std/median) or overflowing (sum) result"),
+ "C17-w2m2": ("C17", "frequency operators walk the reference layer with np.nditer (memory order)", "non-constant reference layer that is not C-contiguous"),
+ "C18-w2m1": ("C18", "trim scans data.T for Fortran-ordered rasters but slices un-transposed", "Fortran-ordered / transposed raster with an asymmetric window"),
+ "C18-w2m2": ("C18", "crop: misplaced break, the left-edge scan only consults zones_ids[0]", ">= 2 ids and the leftmost selected column holding no cell of the first-listed id"),
+ "C19-w2m1": ("C19", "great_circle_distance range checks: first-point latitude compared with 180", "first-point latitude with 90 < |y1| <= 180"),
+ "C19-w2m2": ("C19", "circle_kernel swaps half-width and half-height for non-square cells", "int(r/cellsize_x) != int(r/cellsize_y)"),
 }
 
 # first detection run (before the checks were extended): which seeded changes the quick tier of the responsible check missed,
